@@ -162,7 +162,7 @@ class TextFileComp:
 
 
 class YamlComp:
-    traced = ("vinegar/data_source/yaml_target.py", "vinegar/utils/cache.py")
+    traced = ("vinegar/data_source/yaml_target.py",)
 
     def __init__(self, cfg, workdir):
         from vinegar.data_source.yaml_target import YamlTargetSource
@@ -248,9 +248,10 @@ def sequential_outcomes(case):
     return out
 
 
-def run_case(case):
-    if REPO not in sys.path:
-        sys.path.insert(0, REPO)
+_steps_cache = {}
+
+
+def _run_once(case, preempt):
     threads = case["threads"]
     comp, d = _fresh(case)
     results = [[] for _ in threads]
@@ -261,8 +262,7 @@ def run_case(case):
                     results[i].append(comp.do(op))
             return run
         s = sched.Scheduler([body(i) for i in range(len(threads))], comp.traced,
-                            preemptions=[tuple(p) for p in case.get("preempt", [])],
-                            start_order=case.get("order"))
+                            preemptions=[tuple(p) for p in preempt], start_order=case.get("order"))
         s.run()
         deadlock = s.deadlock
         errors = [type(w.error).__name__ for w in s.workers if w.error is not None]
@@ -270,10 +270,47 @@ def run_case(case):
     finally:
         comp.close()
         shutil.rmtree(d, ignore_errors=True)
-    obs = {"results": results, "probe": probe, "deadlock": deadlock, "errors": errors,
-           "steps": s.step, "switches": s.switches, "trace": [list(t) for t in s.trace_points[:12]]}
-    if case["comp"] != "lru" and not deadlock:
+    return {"results": results, "probe": probe, "deadlock": deadlock, "errors": errors,
+            "steps": s.step, "switches": s.switches, "trace": [list(t) for t in s.trace_points[:12]],
+            "preempt": [list(p) for p in preempt]}
+
+
+def _total_steps(case):
+    key = json.dumps({k: case.get(k) for k in ("comp", "cfg", "threads", "order")}, sort_keys=True)
+    if key not in _steps_cache:
+        _steps_cache[key] = _run_once(case, [])["steps"]
+    return _steps_cache[key]
+
+
+def _judge_local(case, o):
+    if case["comp"] != "lru" and not o["deadlock"]:
         allowed = sequential_outcomes(case)
-        obs["in_sequential_outcomes"] = json.dumps([results, probe], sort_keys=True) in allowed
-        obs["n_sequential_outcomes"] = len(allowed)
-    return obs
+        o["in_sequential_outcomes"] = json.dumps([o["results"], o["probe"]], sort_keys=True) in allowed
+        o["n_sequential_outcomes"] = len(allowed)
+    return o
+
+
+def run_case(case):
+    if REPO not in sys.path:
+        sys.path.insert(0, REPO)
+    n = len(case["threads"])
+    if case.get("sweep"):
+        # every single pre-emption: at every global step, to every other thread
+        total = _total_steps(case)
+        outs = []
+        distinct = {}
+        k, m = case["sweep"] if isinstance(case["sweep"], list) else (0, 1)
+        for step in range(1, total + 1):
+            if step % m != k:
+                continue
+            for target in range(n):
+                o = _judge_local(case, _run_once(case, [[step, target]]))
+                key = json.dumps([o["results"], o["probe"], o["deadlock"], o["errors"]], sort_keys=True)
+                if key not in distinct:
+                    distinct[key] = o
+        return {"sweep": list(distinct.values()), "total_steps": total, "runs": (total // m + 1) * n}
+    pre = case.get("preempt", [])
+    if "preempt_frac" in case:
+        total = _total_steps(case)
+        pre = sorted([[1 + int(f * total), t] for f, t in case["preempt_frac"]])
+    return _judge_local(case, _run_once(case, pre))
